@@ -56,8 +56,81 @@ def _cycle_mask(rng, k):
     return mask
 
 
+def _debruijn(alphabet, n):
+    """de Bruijn sequence B(|alphabet|, n) (Lyndon-word construction), as a list of symbols."""
+    kk = len(alphabet)
+    a = [0] * (kk * n)
+    seq = []
+
+    def db(t, p):
+        if t > n:
+            if n % p == 0:
+                seq.extend(a[1:p + 1])
+        else:
+            a[t] = a[t - p]
+            db(t + 1, p)
+            for j in range(a[t - p] + 1, kk):
+                a[t] = j
+                db(t + 1, t)
+    db(1, 1)
+    return [alphabet[i] for i in seq]
+
+
+def _long_cycle_mask(rng, k):
+    """An induced cycle of 3^(k-1) out-degree-1 vertices (the k-mers along a ternary de Bruijn sequence of order k-1:
+    every (k-1)-mer occurs once, so every vertex has exactly one successor inside) next to a small branching core."""
+    n = 4 ** k
+    letters = rng.sample([0, 1, 2, 3], 3)
+    seq = _debruijn(letters, k - 1)
+    m = len(seq)
+    mask = [0] * n
+    for i in range(m):
+        v = 0
+        for j in range(k):
+            v = v * 4 + seq[(i + j) % m]
+        mask[v] = 1
+    # branching core over the fourth letter and one more: all k-mers with at most one foreign symbol
+    x = [c for c in range(4) if c not in letters][0]
+    y = rng.choice(letters)
+    for pos in range(-1, k):
+        v = 0
+        for j in range(k):
+            v = v * 4 + (y if j == pos else x)
+        mask[v] = 1
+    return mask
+
+
+def _at_most_one_mask(k, a, c):
+    """All k-mers over {a, c} with at most one c: a closed graph of k+1 vertices (two of them branching) at any order."""
+    mask = [0] * (4 ** k)
+    for pos in range(-1, k):
+        v = 0
+        for j in range(k):
+            v = v * 4 + (c if j == pos else a)
+        mask[v] = 1
+    return mask
+
+
 def generate(ctx):
     rng = ctx.rng
+    import json
+    import os
+    corpus = os.path.join(os.path.dirname(os.path.abspath(__file__)), "corpus_deep_masks.json")
+    if os.path.exists(corpus):
+        for i, item in enumerate(json.load(open(corpus))):     # masks found by search that need up to 13 pruning sweeps
+            if ctx.mine(i):
+                for dt in ("bool", "int64"):
+                    yield "generate", dict(k=item["k"], mask=item["mask"], t=1, dtype=dt, fam="deep-sweeps")
+    j = 0
+    for k in (5, 6, 7, 8):
+        if ctx.mine(j):
+            yield "generate", dict(k=k, mask=G.mask_to_hex(_long_cycle_mask(rng, k)), t=1, dtype="bool", fam="long-cycle")
+        j += 1
+    for k in (7, 8, 9, 10):
+        if ctx.mine(j) and (k <= 9 or not ctx.quick() or ctx.shard == 0):
+            a, c = rng.sample([0, 1, 2, 3], 2)
+            yield "generate", dict(k=k, mask=G.mask_to_hex(_at_most_one_mask(k, a, c)), t=rng.choice([1, 1, 2]), dtype=rng.choice(["bool", "int64"]), fam="tiny-at-large-order")
+        j += 1
     both = True
     for m in range(65536):
         if not ctx.mine(m):
@@ -124,7 +197,7 @@ def _describe_vertices(vs, n):
 
 def _call(ctx, dsw, k, mask_arr, t):
     n = 4 ** k
-    budget = 400 * n * (n + 8) + 20000
+    budget = 400 * n * (min(n, 4096) + 8) + 20000
     out = monitored(dsw.connect_coding_graph, budget, k, mask_arr, t)
     ctx.obs("generation_steps_over_budget", out.steps / budget)
     return out
@@ -181,6 +254,9 @@ def check_generate(ctx, case):
     if ch:
         ctx.fail("argument-modified", "changed: %s" % ch)
     ctx.cls(tag)
+    if case["fam"] in ("long-cycle", "tiny-at-large-order", "deep-sweeps"):
+        ctx.cls("family|" + case["fam"])
+        ctx.obs("largest order generated", k)
     ctx.cls("rounds|%d" % min(rounds, 6))
     ctx.cls("dtype|" + case["dtype"])
     if t == 1 and S0:
@@ -196,6 +272,19 @@ def check_generate(ctx, case):
             ctx.fail("latter-map-route-differs", "threshold=%d trimming of the latter map differs from the closed sub-graph in %d entries (k=%d mask=%s)" % (
                 t, int((np.asarray(lm_out.value) != want).sum()), k, case["mask"]))
         ctx.cls("latter-map-route|checked")
+        if case["fam"] != "exhaustive" or (int(case["mask"], 16) % 7 == 0):
+            seq = monitored(_latter_sequence, 4 * (400 * n * (n + 8) + 20000), dsw, k, frozen(mask))
+            if seq.kind == "ok":
+                changed, results = seq.value
+                if changed:
+                    ctx.fail("latter-map-argument-modified", "latter_map_to_accessor(..., threshold) changed the latter map it was given (k=%d mask=%s)" % (k, case["mask"]))
+                for tt, res in results:
+                    S2, _r = G.closed_subgraph(k, S0, tt)
+                    if not np.array_equal(np.asarray(res), G.induced(k, S2)):
+                        ctx.fail("latter-map-route-differs", "the same latter-map object trimmed at thresholds 4, 3, 2 in turn: threshold %d differs from the closed sub-graph (k=%d mask=%s)" % (
+                            tt, k, case["mask"]))
+                        break
+                ctx.cls("latter-map-route|one map object trimmed at 4, 3, 2 in turn")
     # monotonicity on a sub-mask
     if S and (case["fam"] != "exhaustive" or ctx.rng.random() < 0.05):
         sub = mask.copy()
@@ -222,6 +311,17 @@ def _degree_only(k, S0):
         r += 1
 
 
+def _latter_sequence(dsw, k, mask):
+    from vlib import guards
+    valid = dsw.connect_valid_graph(k, mask)
+    lm = dsw.accessor_to_latter_map(valid)
+    d0 = guards.digest(lm)
+    out = []
+    for t in (4, 3, 2):
+        out.append((t, dsw.latter_map_to_accessor(lm, k, threshold=t)))
+    return guards.digest(lm) != d0, out
+
+
 def _latter_route(dsw, k, mask, t):
     valid = dsw.connect_valid_graph(k, mask)
     lm = dsw.accessor_to_latter_map(valid)
@@ -240,7 +340,9 @@ def floors(agg, tier):
             if c.get("t%d|%s" % (t, e), 0) < need:
                 out.append("t%d|%s observed %d < %d" % (t, e, c.get("t%d|%s" % (t, e), 0), need))
     for name, need in (("t1|information-free structure removed", 500), ("latter-map-route|checked", 1000),
-                       ("monotonicity|checked", 500), ("rounds|3", 50)):
+                       ("monotonicity|checked", 500), ("rounds|3", 50),
+                       ("latter-map-route|one map object trimmed at 4, 3, 2 in turn", 500), ("family|long-cycle", 4),
+                       ("family|tiny-at-large-order", 3), ("family|deep-sweeps", 10)):
         if c.get(name, 0) < need:
             out.append("%s observed %d < %d" % (name, c.get(name, 0), need))
     return out
